@@ -173,6 +173,19 @@ def overlapping_profile_cases(rng, quick):
         cases.append(("overlapping_profile", {"kind": kind, "known": kw["known"], "gene_region": kw["gene_region"], "read": read,
                                               "mapped": mapped, "polya": kw["polya"], "polyt": kw["polyt"], "d": d,
                                               "abs_d": kw.get("abs_d", 0)}))
+    # loci with >= 128 known features (the model's sweep has no size threshold; a threshold in the code shows up here)
+    for op, kw in big_locus_profile_cases(rng, 4 if quick else 40):
+        blocks = kw["blocks"]
+        d = kw["d"]
+        if op == "intron_profile":
+            read = [(blocks[i][1] + 1, blocks[i + 1][0] - 1) for i in range(len(blocks) - 1)]
+            cases.append(("overlapping_profile", {"kind": "intron", "known": kw["known"], "gene_region": kw["gene_region"], "read": read,
+                                                  "mapped": (blocks[0][0], blocks[-1][1]), "polya": kw["polya"], "polyt": kw["polyt"],
+                                                  "d": d, "abs_d": 20}))
+        else:
+            cases.append(("overlapping_profile", {"kind": "exon", "known": kw["known"], "gene_region": kw["gene_region"], "read": blocks,
+                                                  "mapped": (blocks[0][1] + d, blocks[-1][0] - d), "polya": kw["polya"],
+                                                  "polyt": kw["polyt"], "d": d, "abs_d": 0}))
     # genome-scale random
     for _ in range(100 if quick else 1000):
         known = sorted(set(rand_sd_list(rng, rng.randint(1, 12), 10 ** 6) + rand_sd_list(rng, rng.randint(0, 5), 10 ** 6)))
@@ -185,6 +198,87 @@ def overlapping_profile_cases(rng, quick):
                                               "gene_region": (known[0][0], max(k[1] for k in known)), "read": read,
                                               "mapped": (read[0][0], read[-1][1]), "polya": rng.choice([-1, read[-1][1]]),
                                               "polyt": rng.choice([-1, read[0][0]]), "d": d, "abs_d": 20}))
+    return cases
+
+
+
+def big_locus(rng, n_exons=None):
+    """a gene cluster with >= 128 distinct annotated introns (big genes / clusters of overlapping genes: seed C01_a4 - the
+    code under test must not treat large feature lists differently from small ones): a base chain of n exons plus
+    exon-skipping introns and alternative donor / acceptor sites (so introns OVERLAP each other and many share a start or
+    an end).  -> (exons of the base isoform, sorted distinct known exons, sorted distinct known introns)"""
+    n = n_exons or rng.randint(100, 260)
+    pos = rng.randint(1000, 50000)
+    base = []
+    for _ in range(n):
+        ln = rng.randint(60, 300)
+        base.append((pos, pos + ln - 1))
+        pos += ln + rng.randint(90, 2500)
+    introns = {(base[i][1] + 1, base[i + 1][0] - 1) for i in range(n - 1)}
+    exons = set(base)
+    for i in range(n - 2):
+        x = rng.random()
+        if x < 0.25:            # exon i+1 skipped
+            introns.add((base[i][1] + 1, base[i + 2][0] - 1))
+        elif x < 0.45:          # alternative donor: exon i shorter / longer
+            sh = rng.choice([-40, -21, -12, -3, 3, 9, 30])
+            e = (base[i][0], base[i][1] + sh)
+            if e[0] + 10 < e[1] and e[1] + 30 < base[i + 1][0]:
+                exons.add(e)
+                introns.add((e[1] + 1, base[i + 1][0] - 1))
+        elif x < 0.6:           # alternative acceptor
+            sh = rng.choice([-30, -9, -3, 3, 12, 21, 40])
+            e = (base[i + 1][0] + sh, base[i + 1][1])
+            if e[0] + 10 < e[1] and base[i][1] + 30 < e[0]:
+                exons.add(e)
+                introns.add((base[i][1] + 1, e[0] - 1))
+    return base, sorted(exons), sorted(introns)
+
+
+def big_locus_profile_cases(rng, n_loci):
+    """(exon_profile | intron_profile, kw) in the format of gen/c13_features.profile_cases on loci with 128..400+ known
+    features.  Reads per locus: a chain of 2-6 base exons (ends perturbed within / beyond delta); a read that STARTS inside
+    an annotated intron (20..400 retained bases in front of the next exon) and its mirror (ends inside an intron); an
+    unspliced read inside an intron, across an exon, across an exon and both flanking introns; a read that skips an exon"""
+    cases = []
+    for _ in range(n_loci):
+        base, exons, introns = big_locus(rng)
+        while len(introns) < 128:
+            base, exons, introns = big_locus(rng, rng.randint(140, 260))
+        gr = (exons[0][0], max(e[1] for e in exons))
+        n = len(base)
+        reads = []
+        for _r in range(2):
+            i = rng.randint(0, n - 7)
+            j = i + rng.randint(1, 5)
+            ch = list(base[i:j + 1])
+            ch[0] = (ch[0][0] + rng.choice([0, 3, 25]), ch[0][1])
+            ch[-1] = (ch[-1][0], ch[-1][1] - rng.choice([0, 3, 25]))
+            reads.append(ch)
+        i = rng.randint(1, n - 6)
+        j = i + rng.randint(0, 3)
+        ret = rng.choice([20, 21, 35, 80, 300, 400])
+        gap = base[i][0] - base[i - 1][1] - 1
+        ret = min(ret, gap - 5)
+        reads.append([(base[i][0] - ret, base[i][1])] + list(base[i + 1:j + 1]))                      # starts inside intron i-1
+        gap = base[j + 1][0] - base[j][1] - 1
+        reads.append(list(base[i:j]) + [(base[j][0], base[j][1] + min(rng.choice([20, 40, 300]), gap - 5))])   # ends inside intron j
+        k = rng.randint(0, n - 2)
+        a, b = base[k][1] + 1, base[k + 1][0] - 1
+        reads.append([(a + 5, min(b - 5, a + 5 + rng.randint(30, 600)))])                               # inside an intron
+        reads.append([(base[k][0] - min(40, 20), base[k][1] + 30)])                                     # across an exon, into both introns
+        k = rng.randint(0, n - 4)
+        reads.append([base[k], base[k + 2], base[k + 3]])                                               # exon k+1 skipped
+        for blocks in reads:
+            blocks = [b_ for b_ in blocks if b_[0] <= b_[1]]
+            if not blocks or not all(blocks[x][1] + 1 < blocks[x + 1][0] for x in range(len(blocks) - 1)):
+                continue
+            d = rng.choice([0, 4, 6])
+            pa = rng.choice([-1, -1, blocks[-1][1]])
+            pt = rng.choice([-1, -1, blocks[0][0]])
+            cases.append(("exon_profile", {"known": exons, "gene_region": gr, "d": d, "blocks": blocks, "polya": pa, "polyt": pt}))
+            cases.append(("intron_profile", {"known": introns, "gene_region": gr, "d": d, "abs_d": 20, "blocks": blocks,
+                                             "polya": pa, "polyt": pt}))
     return cases
 
 
